@@ -6,9 +6,7 @@ import os
 import re
 
 ROOT = os.path.dirname(os.path.dirname(os.path.abspath(__file__)))
-THOROUGH = {"C01": "39 s", "C02": "15 s", "C03": "10 min", "C04": "3 min", "C05": "16 s", "C06": "17 min", "C07": "5 min", "C08": "11 s", "C09": "3 s",
-            "C10": "21 s", "C11": "10 s", "C12": "14 s", "C13": "7 min", "C14": "2.5 min", "C15": "22 s", "C16": "11 s", "C17": "25 s", "C18": "76 s",
-            "C19": "9 s", "C20": "34 s"}
+THOROUGH = {'C01': '54 s', 'C02': '31 s', 'C03': '12.4 min', 'C04': '4.1 min', 'C05': '25 s', 'C06': '18.5 min', 'C07': '5.4 min', 'C08': '29 s', 'C09': '4 s', 'C10': '86 s', 'C11': '10 s', 'C12': '17 s', 'C13': '7.9 min', 'C14': '2.8 min', 'C15': '54 s', 'C16': '12 s', 'C17': '34 s', 'C18': '102 s', 'C19': '13 s', 'C20': '43 s'}
 rows = []
 for p in sorted(glob.glob(os.path.join(ROOT, "evidence", "C*.json"))):
     e = json.load(open(p))
